@@ -231,7 +231,8 @@ def run_tlc(spec_dir, module, cfg, workers=NCPU, env=None, timeout=1500, xmx="8g
         if "evaluating" in r.out and "Error: TLC threw" in r.out:
             r.error = "TLC evaluation error:\n" + r.out[-1500:]
     else:
-        r.error = "TLC failed (exit %d):\n%s" % (r.exit, r.out[-2500:])
+        first = re.search(r"^Error: .*(?:\n(?!Error|@!@).*){0,6}", r.out, re.M)
+        r.error = "TLC failed (exit %d):\n%s\n...\n%s" % (r.exit, first.group(0)[:1500] if first else "", r.out[-2500:])
     return r
 
 
